@@ -36,6 +36,7 @@ func runC06(c *Ctx, r *Report) {
 	// small protocols' first messages (a 12-byte signature delivered as 5..11 bytes, a banner without its end, ...)
 	c14Tables(c, r, "C06.R13")
 	c06Prefixes(c, r, "C06.R20")
+	c06TLSPrefixes(c, r, "C06.R22")
 	c01R2(c, r, "C06.R21")    // evaluating a matcher never changes what later matchers read: freeze and unfreeze are the only writers of the matching state, and unfreeze always puts the cursor back
 	c08R6(c, r, "C06.R19")    // the same bytes give the same verdict: a new connection's matching buffer starts empty (a recycled slice keeps the length it was returned with)
 	c01R4(c, r, "C06.R16")    // evaluating a matcher never changes what later matchers read: what prefetch appends is a copy of what it read (never a view of the pooled chunk it returns)
@@ -810,6 +811,49 @@ func c06R11(c *Ctx, r *Report, rule string) {
 						nilEdges[b.Succs[1]] = true
 					} else {
 						nilEdges[b.Succs[0]] = true
+					}
+				}
+			}
+			// a helper of the module that also reports success in a bool result: where that result is true on the
+			// edge and every return of the helper that answers true returns a nil error, the error is nil there
+			if g := rc.call.Call.StaticCallee(); g != nil && g.Pkg != nil && strings.HasPrefix(g.Pkg.Pkg.Path(), modPath) && len(g.Blocks) > 0 {
+				res := g.Signature.Results()
+				errIdx := -1
+				for i := 0; i < res.Len(); i++ {
+					if types.Identical(res.At(i).Type(), types.Universe.Lookup("error").Type()) {
+						errIdx = i
+					}
+				}
+				for bi := 0; bi < res.Len() && errIdx >= 0; bi++ {
+					if bt, ok := res.At(bi).Type().Underlying().(*types.Basic); !ok || bt.Kind() != types.Bool {
+						continue
+					}
+					implies := true
+					for _, ret := range returnsOf(g) {
+						if bi >= len(ret.Results) || errIdx >= len(ret.Results) {
+							implies = false
+							break
+						}
+						t, isC := constBool(ret.Results[bi])
+						if !isC {
+							implies = false
+							break
+						}
+						if t {
+							if k, isK := ret.Results[errIdx].(*ssa.Const); !isK || !k.IsNil() {
+								implies = false
+								break
+							}
+						}
+					}
+					okV := extractOf(rc.call, bi)
+					if !implies || okV == nil {
+						continue
+					}
+					for _, b := range fn.Blocks {
+						if ifi, ok := b.Instrs[len(b.Instrs)-1].(*ssa.If); ok && ifi.Cond == ssa.Value(okV) {
+							nilEdges[b.Succs[0]] = true
+						}
 					}
 				}
 			}
